@@ -391,6 +391,14 @@ impl Expression for ExpressionAssign {
                 Ok(v) => match right_result {
                     Err(err) => Err(err),
                     Ok(right_arc) => {
+                        if Arc::ptr_eq(&v.arc, &right_arc.arc) {
+                            // "x = x": source and destination are the same value, locking both would deadlock.
+                            return if v.is_readonly() {
+                                Err(format!("Can't set read-only {v}"))
+                            } else {
+                                Ok(v.clone())
+                            };
+                        }
                         let right_guard = right_arc.lock().unwrap();
                         match right_guard.deref() {
                             Data::Integer(_)
@@ -457,11 +465,14 @@ impl Expression for ExpressionAssignUndefined {
             match left_result {
                 Err(err) => Err(err),
                 Ok(left_value) => {
-                    right_result
-                        .lock()
-                        .unwrap()
-                        .deref()
-                        .clone_into(left_value.lock().unwrap().deref_mut());
+                    if !Arc::ptr_eq(&left_value.arc, &right_result.arc) {
+                        // (same value on both sides: nothing to copy, locking both would deadlock)
+                        right_result
+                            .lock()
+                            .unwrap()
+                            .deref()
+                            .clone_into(left_value.lock().unwrap().deref_mut());
+                    }
                     Ok(left_value.clone())
                 }
             }
